@@ -21,9 +21,10 @@ from . import shape as S
 #            name: bases
 # D is a diamond over A (through B and E) with a mix-in: the order of its supertypes is the C3 linearisation D, B, E, A, M - not a
 # depth-first walk of __bases__
-LATTICE = [('A', []), ('B', ['A']), ('C', ['B']), ('M', []), ('E', ['A']), ('D', ['B', 'E', 'M'])]
+# L is an unrelated class defined inside a function whose own name is also 'A': only its qualified name tells it from A
+LATTICE = [('A', []), ('B', ['A']), ('C', ['B']), ('M', []), ('E', ['A']), ('D', ['B', 'E', 'M']), ('L', [])]
 # B and D are nested classes: __qualname__ differs from __name__
-QUALNAME = {'A': 'A', 'B': 'Outer.B', 'C': 'C', 'M': 'M', 'D': 'Outer.D', 'E': 'E'}
+QUALNAME = {'A': 'A', 'B': 'Outer.B', 'C': 'C', 'M': 'M', 'D': 'Outer.D', 'E': 'E', 'L': 'factory.<locals>.A'}
 KEY = {c: 'lattice.' + q for c, q in QUALNAME.items()}
 
 
@@ -141,6 +142,15 @@ class World:
                 if r is not None:
                     return r
             return self.base
+        if isinstance(cls, TypeV):
+            # a class known by name (a builtin, a class of the package such as the comment wrappers): along its linearisation
+            lin = self.it._type_mro(cls.name)
+            if lin is not None:
+                for name_ in lin:
+                    r = self.live.get(TypeV(name_))
+                    if r is not None:
+                        return r
+                return self.base
         raise Undecided('dispatch on %s' % prov(cls))
 
     def p_dispatch(self, it, a, k, n):
@@ -293,7 +303,7 @@ class World:
 
 
 # ---------------------------------------------------------------------------------------------------- histories
-ALL = ['A', 'B', 'C', 'M', 'D', 'E']
+ALL = ['A', 'B', 'C', 'M', 'D', 'E', 'L']
 FLAGS = [dict(check_superclasses=cs, check_deferred=cd, register_deferred=rd) for cs in (False, True) for cd in (False, True) for rd in (False, True)]
 
 
